@@ -21,7 +21,7 @@ PROP = "C17"
 MODULE = "MC_Gateway"
 
 BASE = {
-    "Coord": "<- c_Coord", "DocCoord": "<- c_DocCoord", "DocTokens": "<- c_TokSimple",
+    "Coord": "<- c_Coord", "DocCoord": "<- c_DocCoord", "DocTokens": "<- c_TokSimple", "DocInside": "<- c_InsideNested",
     "ThrF": "<- c_ThrF", "ThrC": "<- c_ThrC", "RagR": "<- c_RagR",
     "Cfgs": "<- c_CfgsAll", "Reqs": "<- c_ReqsAll", "Seeds": "<- c_Seeds", "InvDocs": "<- c_InvDocs",
     "MaxOps": 4, "MaxTicks": 1, "EmitFrom": 0,
@@ -38,16 +38,17 @@ CANARIES = [
     ("nearest_only", {"K_NearestOnly": "TRUE"}, ("Prop_Steps", "Inv_Steps")),
     ("inval_noop", {"K_Inval": '"noop"'}, ("Prop_InvalExact",)),
     ("inval_token", {"K_Inval": '"token"', "DocTokens": "<- c_TokPath"}, ("Prop_InvalExact",)),
+    ("inval_substring", {"K_Inval": '"substring"'}, ("Prop_InvalExact",)),
 ]
 
 # concrete configurations the histories are replayed in
 PROFILES = [
-    {"metric": "cosine", "cache_index": "auto", "id_style": "simple", "fw_empty": "empty"},
+    {"metric": "cosine", "cache_index": "auto", "id_style": "nested", "fw_empty": "empty"},
     {"metric": "cosine", "cache_index": "pre", "id_style": "path", "fw_empty": "missing"},
-    {"metric": "euclidean", "cache_index": "pre", "id_style": "simple", "fw_empty": "empty"},
+    {"metric": "euclidean", "cache_index": "pre", "id_style": "nested", "fw_empty": "empty"},
     {"metric": "euclidean", "cache_index": "pre", "id_style": "path", "fw_empty": "missing"},
     {"metric": "cosine", "cache_index": "auto", "id_style": "path", "fw_empty": "missing"},
-    {"metric": "cosine", "cache_index": "pre", "id_style": "simple", "fw_empty": "empty"},
+    {"metric": "cosine", "cache_index": "pre", "id_style": "nested", "fw_empty": "empty"},
 ]
 
 
@@ -142,9 +143,9 @@ def stratum(r):
     """class of a history for stratified sampling: configuration x what its last two steps exercise"""
     def cls(o):
         if o["op"] == "Req":
-            return ("Req", tuple(o["accept"]), o["dFw"], o["dCache"], o["pat"], o["mark"], o["stream"], bool(o["servable"]))
+            return ("Req", tuple(o["accept"]), o["dFw"], o["dCache"], o["pat"], o["mark"], o["stream"], bool(o["servable"]), o.get("shadow", False))
         if o["op"] == "Inval":
-            return ("Inval", bool(o["gone"]), len(o["cache"]) > 0)
+            return ("Inval", o["doc"], bool(o["gone"]), tuple(sorted(o.get("others") or [])))
         if o["op"] == "Seed":
             return ("Seed", o["fresh"], bool(o["src"]))
         return ("Tick",)
@@ -153,18 +154,48 @@ def stratum(r):
     return (c["fw"], c["cache"], bool(c["forb"]), cls(ops[-1]), cls(ops[-2])[0] if len(ops) > 1 else "")
 
 
-def sample(rng, hs, n):
+def critical(h):
+    """situations in which a near-miss implementation differs from the requirement only here:
+    (a) a hit that must be served although an expired entry lies at least as near as every servable one
+        (a lookup that inspects the nearest entry only);
+    (b) an invalidation that must spare answers citing only OTHER documents (any inexact match of ids:
+        shared tokens, substrings)"""
+    for o in h["ops"]:
+        if o["op"] == "Req" and o.get("shadow") and o["accept"] == ["hit"] and not o["mark"]:
+            return ("shadowed_hit", o["pos"], tuple(sorted(e["pos"] for e in o["cache"] if not e["fresh"])))
+        if o["op"] == "Inval" and o.get("others"):
+            return ("inval_spares", o["doc"], tuple(sorted(o["others"])), bool(o["gone"]))
+    return None
+
+
+def sample(rng, hs, n, n_critical=None):
     """round robin over the strata so that rare situations (hits on expired neighbours, non-empty
-    invalidations, threshold cases) are present in every sample"""
+    invalidations, threshold cases) are present in every sample; the critical situations first"""
     if len(hs) <= n:
         return list(hs)
+    out, taken = [], set()
+    crit = {}
+    for i, h in enumerate(hs):
+        c = critical(h)
+        if c:
+            crit.setdefault(c, []).append(i)
+    quota = n // 3 if n_critical is None else n_critical
+    keys = sorted(crit, key=repr)
+    for k in keys:
+        rng.shuffle(crit[k])
+    while len(out) < quota and any(crit[k] for k in keys):
+        for k in keys:
+            if crit[k] and len(out) < quota:
+                i = crit[k].pop()
+                out.append(hs[i])
+                taken.add(i)
     groups = {}
-    for h in hs:
-        groups.setdefault(stratum(h), []).append(h)
+    for i, h in enumerate(hs):
+        if i not in taken:
+            groups.setdefault(stratum(h), []).append(h)
     keys = sorted(groups, key=repr)
     for k in keys:
         rng.shuffle(groups[k])
-    out = []
     while len(out) < n:
         progressed = False
         for k in keys:
@@ -278,6 +309,14 @@ def run(tier):
                        "(7 positions x pattern x marker x stream x retrieval route, 7 plantable entries, 3 documents, 8 configurations). "
                        "Available: %s; replayed after stratified sampling (round robin over configuration x last-step class): %s" % (
                            "" if quick else " and the full universe", {n: len(lv) for n, lv, _ in parts}, {n: len(c) for n, _, c in parts}))
+    chk.cov["critical_situations_replayed"] = {}
+    for h in histories:
+        c = critical(h)
+        if c:
+            chk.cov["critical_situations_replayed"][c[0]] = chk.cov["critical_situations_replayed"].get(c[0], 0) + 1
+    for need in ("shadowed_hit", "inval_spares"):
+        if not chk.cov["critical_situations_replayed"].get(need):
+            chk.infra.append("vacuous: no replayed history contains the situation %r" % need)
     chk.cov["samples"] = [{"cfg": h["cfg"], "steps": [dict(strip(o), required=o.get("accept") or o.get("gone")) for o in h["ops"]]} for h in histories[:3]]
 
     th.join()
